@@ -350,3 +350,10 @@ pub mod __internal__ {
         response::{ResponseHeader, ResponseHeaders},
     };
 }
+
+#[cfg(feature="ohkami_verif")]
+#[cfg(feature="__rt__")]
+#[doc(hidden)]
+pub mod __verif {
+    pub use crate::ohkami::routing::{HandlerSet, ByAnother, Dir, Routing};
+}
